@@ -442,6 +442,10 @@ def plan(ctx):
     first = [(ff(v, "section" if i % 2 == 0 else "api"), "GUO"[i % 3])
              for i, v in enumerate(["dot", "ml", "ci", "greed", "iw", "posix", "uni", "nums", "cmt"])]
     first += [(ff("dot", "api"), "G"), (ff("ml", "section"), "U")]
+    # %avoid_insert tokens that recovery nevertheless inserts (unique cheapest repair): `$k` must be Err
+    pinned = {"rec": "C"}
+    first += [(lambda r: c13gen.fam_insert(r, avoid=["INT", "EQ", "ID"]), "G", pinned), (c13gen.fam_avoid, "U", pinned),
+              (c13gen.fam_avoid, "G", {"rec": "-"})]
     first += [(c13gen.fam_expr, "G"), (c13gen.fam_insert, "U"), (c13gen.fam_long, "G"),
               (c13gen.fam_list, "O"), (c13gen.fam_list, "G"), (c13gen.fam_insert, "G"),
               (c13gen.fam_random, "G"), (c13gen.fam_expr, "U"),
@@ -449,8 +453,10 @@ def plan(ctx):
     k = ctx.n(48, 300)
     for i in range(k):
         if i < len(first):
-            f, yk = first[i]
-            progs.append(c13gen.make_program(rng, i, family=f, yk=yk))
+            f, yk = first[i][0], first[i][1]
+            pr = c13gen.make_program(rng, i, family=f, yk=yk, forced=first[i][2] if len(first[i]) > 2 else None)
+            pr['pinned'] = len(first[i]) > 2
+            progs.append(pr)
         else:
             progs.append(c13gen.make_program(rng, i))
     # settings coverage: make sure every recoverer / format / edition / visibility occurs
@@ -458,7 +464,10 @@ def plan(ctx):
               ("vis", ["priv", "pub", "super", "self", "crate", "in"])]
     for key, vals in forced:
         for j, v in enumerate(vals):
-            progs[(j * 5 + len(key)) % len(progs)]['settings'][key] = v
+            idx = (j * 5 + len(key)) % len(progs)
+            while progs[idx].get('pinned') and key == "rec":
+                idx = (idx + 1) % len(progs)
+            progs[idx]['settings'][key] = v
     return progs
 
 
@@ -601,7 +610,7 @@ def pipeline_part(ctx, exe, mexe, d):
     ndiff = 0
     nprog_compared = 0
     evl, evmeta = [], []
-    stats = dict(inputs=0, with_errors=0, values_compared=0, err_values=0, nondet_skipped=0, lexerr=0)
+    stats = dict(inputs=0, with_errors=0, values_compared=0, err_values=0, nondet_skipped=0, lexerr=0, avoid_insert_err_values=0)
     for pr in accepted:
         name = pr['name']
         if name in broken:
@@ -651,6 +660,11 @@ def pipeline_part(ctx, exe, mexe, d):
                 stats['values_compared'] += 1
                 if "Err(" in unhx(cval.split()[1]) if cval != "VAL -" else False:
                     stats['err_values'] += 1
+                if pr.get('avoid_insert') and pr['yk'] in 'GU' and rval != "VAL -":
+                    # an %avoid_insert token that recovery inserted: the run-time value shows Err(<tok>@…) for it
+                    tid = {unhx(k): v for k, v in kvlist(m.get("TOKS", ""))}
+                    if any(("Err(%s@" % tid[t]) in unhx(rval.split()[1]) for t in pr['avoid_insert'] if t in tid):
+                        stats['avoid_insert_err_values'] += 1
             if not det:
                 stats['nondet_skipped'] += 1
             nontriv = len(inp.split()) >= 3
@@ -688,6 +702,8 @@ def pipeline_part(ctx, exe, mexe, d):
                                "proved wrapper model computes from the run-time parse", model=e, compiled=cval,
                                authority="C13_wrapper_args_spec, C13_dollar_k_denotes_kth"))
     ctx.oblige(ndiff == 0, "pipeline correspondence")
+    ctx.oblige(stats['avoid_insert_err_values'] > 0 or not any(p.get('pinned') and p['name'] not in broken for p in accepted),
+               "coverage: a compared value in which an %avoid_insert token was inserted (Err)")
     for k, v in stats.items():
         ctx.count("pipeline_" + k, v)
     ctx.count("model_value_evaluations", nmodel)
